@@ -175,6 +175,22 @@ def vf1(ctx, c):
                                   "%s.add_files catches %s around add_file and carries on: a file that does not fit is dropped, save_virtual_file writes the image without it and "
                                   "the command reports success - the caller is promised an error and an untouched host file" % (cl_.name, U(h.type) if h.type is not None else "everything"),
                                   repo.loc(m_, h))
+    # ... nor does any caller: a disk container that refused a file keeps the granules it had provisionally marked, so an image written after a
+    # swallowed refusal carries allocation-table entries that belong to no chain
+    for f_ in repo.all_funcs():
+        if f_.name == "add_files" or not f_.module.rel.startswith("cocoasm/"):
+            continue
+        for tr_ in [n for n in ast.walk(f_.node) if isinstance(n, ast.Try)]:
+            calls_ = [x for b_ in tr_.body for x in ast.walk(b_) if isinstance(x, ast.Call) and isinstance(x.func, ast.Attribute) and x.func.attr in ("add_file", "add_files")]
+            if not calls_:
+                continue
+            for h in tr_.handlers:
+                leaves = any(isinstance(y, (ast.Raise, ast.Return)) or (isinstance(y, ast.Call) and U(y.func) in ("sys.exit", "exit", "quit", "os._exit")) for y in ast.walk(h))
+                if not leaves:
+                    c.finding("%s:errors" % f_.q, "an error from %s is caught and the image is carried on with (%s)" % (calls_[0].func.attr, U(h.type) if h.type is not None else "bare except"),
+                              "%s catches %s around %s and carries on: the container has already marked granules for the file it then refused (add_file never takes the marks back), "
+                              "so the image saved afterwards holds allocation-table entries that belong to no file, and the command reports success for a file that was not stored"
+                              % (f_.q, U(h.type) if h.type is not None else "everything", U(calls_[0].func)), repo.loc(f_, h))
     # add_files of the container base: in order
     af = repo.method("VirtualFileContainer", "add_files")
     loops = [n for n in ast.walk(af.node) if isinstance(n, ast.For)]
@@ -308,6 +324,25 @@ def vf5(ctx, c):
         c.undecided("add_coco_file:records", "not-evaluable", "; ".join(notes)[:80], repo.loc(ac, ac.node))
     else:
         c.finding("add_coco_file:records", "the file is not put into the list", "VirtualFile.add_coco_file does not add its argument to coco_file_list: the image is saved without the file", repo.loc(ac, ac.node))
+    # ... and unconditionally: a file skipped because "one like it is already there" is a file the caller was told is saved
+    skips = []
+    acb = body_without_doc(ac.node)
+    for i_, st_ in enumerate(acb):
+        later_add = any(isinstance(x, ast.Call) and isinstance(x.func, ast.Attribute) and x.func.attr in ("append", "extend", "insert") and "coco_file_list" in U(x.func)
+                        for s2 in acb[i_ + 1:] for x in ast.walk(s2))
+        if isinstance(st_, ast.If) and later_add and any(isinstance(x, ast.Return) for b_ in st_.body for x in ast.walk(b_)) and not any(isinstance(x, ast.Raise) for x in ast.walk(st_)):
+            skips.append(st_)
+        if isinstance(st_, ast.If) and not st_.orelse and not later_add and any(
+                isinstance(x, ast.Call) and isinstance(x.func, ast.Attribute) and x.func.attr in ("append", "extend", "insert") and "coco_file_list" in U(x.func) for x in ast.walk(st_)) \
+                and ("coco_file_list" in U(st_.test) or ".name" in U(st_.test)):
+            skips.append(st_)
+    if skips:
+        c.finding("add_coco_file:always", "the file is recorded only when `%s` does not hold" % U(skips[0].test)[:60] if any(isinstance(x, ast.Return) for x in ast.walk(skips[0]))
+                  else "the file is recorded only when `%s`" % U(skips[0].test)[:60],
+                  "VirtualFile.add_coco_file returns without recording the file under `%s`: the caller reports the file as saved, the image is written without it"
+                  % U(skips[0].test)[:80], repo.loc(ac, skips[0]))
+    elif rec or aug:
+        c.ok("add_coco_file:always", "recorded on every path", repo.loc(ac, ac.node))
     # open_virtual_file loads what is stored
     ov = repo.method(VF, "open_virtual_file")
     ovf = flatten(repo, ov, depth=2, only={m_ for m_ in repo.cls(VF).methods if m_ not in ("get_coco_files",)})
@@ -483,7 +518,7 @@ def cli5(ctx, c):
     n_eval = 0
     for sw, kind in (("to_bin", "BINARY"), ("to_cas", "CASSETTE"), ("to_dsk", "DISK")):
         for pname in ("PROG", None):
-            for cname in (None, "cli", ""):
+            for cname in (None, "cli", "", "na.me"):
                 for append in (False, True):
                     env = dict(ctx.env)
                     for cn in ("VirtualFile", "SourceFile", "Program", "CoCoFile"):
@@ -1003,6 +1038,17 @@ def vf4(ctx, c):
                       "get_coco_files tries a reader under `%s`: the answer to 'what is in this file' then follows the kind requested, and the permissive cassette reader "
                       "accepts a disk image or a binary as an empty cassette, so the kind-mismatch refusal of open_virtual_file never fires for that request" % U(n.test)[:70],
                       repo.loc(gc, n))
+    # ... nor on what the file is called
+    gc_binds = {U(n.targets[0]): n.value for n in ast.walk(gc.node) if isinstance(n, ast.Assign) and len(n.targets) == 1}
+    for n in ast.walk(gc.node):
+        if isinstance(n, ast.If) and "virtual_file_type" not in U(n.test) and any(isinstance(x, ast.Call) and U(x.func) in KINDS.values() for x in ast.walk(n)):
+            texts = [U(n.test)] + [U(gc_binds[x.id]) for x in ast.walk(n.test) if isinstance(x, ast.Name) and x.id in gc_binds]
+            if any(re.search(r"get_file_name|file_name|filename|splitext|endswith|\.suffix|basename", t_) for t_ in texts):
+                c.finding("get_coco_files:by-name", "a reader is tried or skipped on the file's name (%s)" % texts[-1][:50],
+                          "get_coco_files tries a reader under `%s` (%s): the kind of an existing file is then decided by what it is called; an image whose name says otherwise is handed "
+                          "to the permissive cassette reader, sniffs as an empty cassette, and --append replaces it" % (U(n.test)[:50], texts[-1][:70]), repo.loc(gc, n))
+            else:
+                c.undecided("get_coco_files:by-name", "a reader is tried under a condition", U(n.test)[:80], repo.loc(gc, n))
     for n in sorted([x for x in ast.walk(gc.node) if isinstance(x, ast.Try)], key=lambda x: (x.lineno, x.col_offset)):
         if any(isinstance(x, ast.Call) and U(x.func) in KINDS.values() for x in ast.walk(n)):
             for x in ast.walk(n):
